@@ -5,6 +5,7 @@ import (
 	"go/token"
 	"go/types"
 	"sort"
+	"strings"
 
 	"golang.org/x/tools/go/ssa"
 )
@@ -532,6 +533,38 @@ func runSharedWrite(p *Program, r *RuleResult) {
 				case *ssa.MapUpdate:
 					addr = x.Map
 				}
+				if ld, ok := in.(*ssa.UnOp); ok && ld.Op == token.MUL {
+					// a library object kept in the shared environment and used from the process
+					// goroutines: everything outside the concurrency-safe few (contexts, files,
+					// loggers, sync types) mutates itself in its methods (bufio.Writer,
+					// bytes.Buffer, strings.Builder, rand.Rand …)
+					if fa, ok := ld.X.(*ssa.FieldAddr); ok && isShared(fa.X.Type()) && foreignUnsafeType(ld.Type()) && ld.Referrers() != nil {
+						used := false
+						var walk func(v ssa.Value, d int)
+						walk = func(v ssa.Value, d int) {
+							if v.Referrers() == nil || d > 2 {
+								return
+							}
+							for _, u := range *v.Referrers() {
+								switch x := u.(type) {
+								case ssa.CallInstruction:
+									used = true
+								case *ssa.MakeInterface:
+									walk(x, d+1)
+								case *ssa.ChangeInterface:
+									walk(x, d+1)
+								}
+							}
+						}
+						walk(ld, 0)
+						if used {
+							_, f, _ := fieldNameOf(fa)
+							ord++
+							r.add(fnName(fn), fmt.Sprintf("shared-library-object#%d-%s.%s", ord, namedOf(fa.X.Type()).Obj().Name(), f), Violated, p.instrPos(ld),
+								fmt.Sprintf("%s.%s holds a %s, which is not safe for concurrent use, and code that the process goroutines run calls it or hands it to a call: every process of the run shares that one object, so two steps at the same time corrupt it", namedOf(fa.X.Type()).Obj().Name(), f, ld.Type()))
+						}
+					}
+				}
 				if addr == nil {
 					// the address of a field of a shared object that is neither loaded from nor
 					// navigated further nor handed to sync/atomic escapes: whoever receives it
@@ -1008,4 +1041,32 @@ func runCloseOwner(p *Program, r *RuleResult) {
 		}
 	}
 	r.count("closes of channel fields", n)
+}
+
+// foreignUnsafeType: a pointer to a named type of a package outside the module (or an
+// interface other than the few whose implementations are safe by contract) that is not one of
+// the library types documented as safe for concurrent use.
+func foreignUnsafeType(t types.Type) bool {
+	safe := map[string]bool{"context.Context": true, "os.File": true, "log.Logger": true, "time.Location": true, "time.Timer": true, "time.Ticker": true,
+		"net/http.Client": true, "net/http.Server": true, "regexp.Regexp": true, "error": true}
+	var n *types.Named
+	switch u := t.Underlying().(type) {
+	case *types.Pointer:
+		n = namedOf(u.Elem())
+	case *types.Interface:
+		n = namedOf(t)
+		if n == nil {
+			return false
+		}
+	default:
+		return false
+	}
+	if n == nil || n.Obj().Pkg() == nil {
+		return false
+	}
+	path := n.Obj().Pkg().Path()
+	if path == "grits" || strings.HasPrefix(path, "grits/") || path == "sync" || path == "sync/atomic" {
+		return false
+	}
+	return !safe[path+"."+n.Obj().Name()]
 }
